@@ -5,3 +5,4 @@ pub mod c11;
 pub mod c02;
 pub mod c13;
 pub mod c14;
+pub mod c19;
